@@ -78,6 +78,8 @@ var transTargets = []transTarget{
 	{"config/config.go", "", "validateUniqueID", "head0", "cfgUniqueIDHead"},
 	{"config/config.go", "", "validateUniqueID", "loop0", "cfgUniqueIDBody"},
 	// C20
+	{"node/kafkaconsumer/kafkaconsumer.go", "KafkaConsumer", "checkConfig", "", "kcCheckConfig"},
+	{"util/util.go", "", "ApplyLibrdkafkaConf", "loop0", "applyConfBody"},
 	{"helpers.go", "Nodeconfig", "IntConfigRequired", "", "intConfigRequired"},
 	{"helpers.go", "Nodeconfig", "IntConfig", "", "intConfig"},
 	{"helpers.go", "Nodeconfig", "StringConfigRequired", "", "stringConfigRequired"},
@@ -108,6 +110,7 @@ type translator struct {
 	noCtx       bool              // inside the right operand of && / ||: a call may not be hoisted
 	localMinMax bool              // the package declares its own min / max functions
 	consts      map[string]string // package-level integer constants of the target's package
+	multi       map[string]int    // how often each callee text occurs in the fragment
 	bad         bool
 }
 
@@ -158,12 +161,22 @@ func (t *translator) callStmt(rets []string, c *ast.CallExpr) string {
 	for _, a := range c.Args {
 		args = append(args, t.loose(a))
 	}
+	// a callee with several results that the fragment calls more than once (strconv.Atoi on two different settings) may run
+	// twice in one run: its results are distinct inputs, named with the argument text
+	src := fn
+	if len(rets) > 1 && t.multi[fn] > 1 {
+		var at []string
+		for _, a := range c.Args {
+			at = append(at, exprString(a))
+		}
+		src = fn + "(" + strings.Join(at, ", ") + ")"
+	}
 	var rs []string
 	for i, r := range rets {
 		if r == "_" {
 			continue
 		}
-		rs = append(rs, fmt.Sprintf("(%s, %s)", leanStr(r), leanStr(fmt.Sprintf("%s#%d", fn, i))))
+		rs = append(rs, fmt.Sprintf("(%s, %s)", leanStr(r), leanStr(fmt.Sprintf("%s#%d", src, i))))
 	}
 	return fmt.Sprintf("(.call [%s] %s [%s])", strings.Join(rs, ", "), leanStr(fn), strings.Join(args, ", "))
 }
@@ -684,7 +697,13 @@ func writeTrans(repo string) string {
 		term := "(.unsupported \"missing\")"
 		if body != nil {
 			minMaxPure = tt.name != "min" && tt.name != "max" && len(methodsOfFuncs(filepath.Join(repo, filepath.Dir(tt.file)), "min", "max")) == 2
-			t := &translator{localMinMax: minMaxPure, consts: pkgIntConsts(filepath.Join(repo, filepath.Dir(tt.file)))}
+			t := &translator{localMinMax: minMaxPure, consts: pkgIntConsts(filepath.Join(repo, filepath.Dir(tt.file))), multi: map[string]int{}}
+			ast.Inspect(body, func(nd ast.Node) bool {
+				if c, ok := nd.(*ast.CallExpr); ok {
+					t.multi[exprString(c.Fun)]++
+				}
+				return true
+			})
 			term = t.block(body)
 		}
 		fmt.Fprintf(&sb, "def %s : S :=\n  %s\n\n", tt.lean, term)
